@@ -251,8 +251,11 @@ def c06_script(ctx, aid, oi, table, op):
                     src = "\n".join(it["body"]) + "\n"
                     if it["lead"] % 2:
                         src = "\n".join("    " + x for x in src.splitlines()) + "\n"  # indented: must be dedented
+                    # leading blank / whitespace-only lines (the usual shape of a triple-quoted literal) count as lines
+                    nblank = (it["lead"] // 2) % 3
+                    src = "".join(["\n", "   \n", "\n"][:nblank]) + src + ("\n" if it["lead"] == 5 else "")
                     target, kw = src, {}
-                    raise_line = it["raise_line"] + 1 if it["raise_line"] is not None else None
+                    raise_line = it["raise_line"] + 1 + nblank if it["raise_line"] is not None else None
                     fname = "<remote exec>"
                 elif it["form"] == "function":
                     path, raise_line = write_function_module(d, modname, it)
